@@ -822,7 +822,6 @@ func avoidMapEntryClash(out []*Field, taken map[string]bool) {
 			return false
 		}
 		for clash() {
-			delete(taken, strings.ToLower(snake(m.Name)))
 			m.Name += "Alt"
 			for taken[strings.ToLower(snake(m.Name))] {
 				m.Name += "Alt"
@@ -863,7 +862,7 @@ func (g *gen) shadow(f *Field, taken map[string]bool, objectOnly bool) *Field {
 	if taken[strings.ToLower(snake(cand))] {
 		return nil
 	}
-	delete(taken, strings.ToLower(snake(f.Name)))
+	// the old name stays reserved: an inline enum's value prefix was derived from it
 	f.Name = cand
 	taken[strings.ToLower(snake(cand))] = true
 	g.cls("inline-shadows-type")
